@@ -611,6 +611,30 @@ func Apply(p mq.Packet, o Op) error {
 		func() {
 			defer func() { recover() }()
 			q := New(TypeOf(p))
+			// first the sibling takes the SAME values as this packet (read through the
+			// accessors), then they are changed: a table of shared small values, an
+			// interned default, is written through by the second step
+			mirror := OpsFor(Observe(p))
+			for _, m := range mirror {
+				Apply(q, m)
+			}
+			for _, m := range mirror {
+				if m.Kind == "will" || m.Kind == "filters" || m.Kind == "userprops" || m.Kind == "code" {
+					continue
+				}
+				if len(m.B) > 0 {
+					b := append([]byte{}, m.B...)
+					b[0] ^= 0x01
+					m.B = b
+				}
+				if m.Kind != "qos" && m.Kind != "protover" {
+					m.N ^= 9
+				}
+				if m.Kind == "prop" && m.ID == 0x0B && m.N == 0 {
+					m.N = 9
+				}
+				Apply(q, m)
+			}
 			n := 1 + int(o.N%3)
 			for i := 0; i < n; i++ {
 				if x, ok := q.(interface{ AddUserProp(...string) }); ok {
